@@ -20,7 +20,10 @@ unit_files = {u: _files_of(c['template']) for u, c in units.items()}
 def props_touched(diff_path):
     touched = set(re.findall(r'(?m)^\+\+\+ b/(\S+)', open(diff_path).read()))
     us = [u for u, fs in unit_files.items() if fs & touched]
-    return sorted({p for u in us for p in units[u]['properties'] if p in props}), us
+    ps = {p for u in us for p in units[u]['properties'] if p in props}
+    # the registered bounded stand-ins run the whole derive / the whole export path: any source change can reach them
+    ps |= {p for c in units.values() for b in c.get('bounded_standins', []) for p in b['properties'] if p in props}
+    return sorted(ps), us
 bad = 0
 allf = sorted(x for x in os.listdir(d) if x.endswith('.diff'))
 if shard:
